@@ -87,6 +87,17 @@ RequiredTree(init, toks) ==
                               THEN [ns[i] EXCEPT !.a = @ \cup RequiredExtra(st.attlists, ns[i].n, ns[i].a)]
                               ELSE ns[i]]]
 
+\* "nesting-depth-limit": elements nested deeper than 128 are refused (parser::MAX_NESTING_DEPTH,
+\* introduced by the repair of the stack overflow on deep nesting).  Exact model: the document
+\* opens more than 128 elements at once and both entry points answer with an error.
+RECURSIVE MaxNest(_, _, _)
+MaxNest(toks, cur, best) ==
+  IF toks = <<>> THEN best
+  ELSE LET c == CASE Head(toks).k = "stag" -> cur + 1 [] Head(toks).k = "etag" -> cur - 1 [] OTHER -> cur
+       IN MaxNest(Tail(toks), c, IF c > best THEN c ELSE best)
+NestingLimit == 128
+TooDeep(e) == MaxNest(e.toks, 0, 0) > NestingLimit
+
 \* as-is models compose: S is a set of open findings that all apply to the document
 AsIsTreeC01(S, e) ==
   LET init == IF "no-line-end-normalization" \in S THEN NoEolInit ELSE InitState
@@ -103,6 +114,8 @@ C01Names == {"no-line-end-normalization", "required-attribute-materialized"}
 C01Verdict(e, rec) ==
   IF ~(rec.wf /\ rec.inprofile) THEN [verdict |-> "ok"]
   ELSE IF ViewIdeal(e.raw, rec.tree) /\ ViewIdeal(e.merged, rec.tree) THEN [verdict |-> "ok"]
+  ELSE IF "nesting-depth-limit" \in Open /\ TooDeep(e) /\ e.raw.parse = "err" /\ e.merged.parse = "err"
+       THEN [verdict |-> "nesting-depth-limit", depth |-> MaxNest(e.toks, 0, 0)]
   ELSE LET app == { n \in C01Names \cap Open : AsIsAppliesC01(n, e) }
            m == { S \in (SUBSET app) \ {{}} :
                     ViewIdeal(e.raw, AsIsTreeC01(S, e)) /\ ViewIdeal(e.merged, AsIsTreeC01(S, e)) }
